@@ -13,6 +13,7 @@ import (
 	imonitor "github.com/nulab/autog/internal/monitor"
 	"github.com/nulab/autog/internal/phase1"
 	"github.com/nulab/autog/internal/phase2"
+	"github.com/nulab/autog/internal/phase3"
 	"github.com/nulab/autog/internal/phase4"
 	"github.com/nulab/autog/internal/phase5"
 )
@@ -44,9 +45,18 @@ func runOp(c *Case) (obs map[string]any) {
 
 func buildOptions(cfg *Cfg, mon imonitor.Monitor, sizes map[string]pg.Size) []autog.Option {
 	var opts []autog.Option
+	// an algorithm that is the documented default is requested explicitly in some cases and left to the default in others
+	// (derived from the configuration, so that a case replays identically)
+	dh := uint64(cfg.P1*5+cfg.P2*11+cfg.P4*23+cfg.P5*47) + uint64(len(cfg.NS))*3 + uint64(len(cfg.LS))*7 + uint64(len(sizes))*13
+	useDefault := func(bit uint) bool { return (dh>>bit)&1 == 1 }
+	if !useDefault(4) {
+		opts = append(opts, autog.WithOrdering(phase3.WMedian))
+	}
 	switch cfg.P1 {
 	case 0:
-		opts = append(opts, autog.WithCycleBreaking(phase1.Greedy))
+		if !useDefault(0) {
+			opts = append(opts, autog.WithCycleBreaking(phase1.Greedy))
+		}
 	case 1:
 		opts = append(opts, autog.WithCycleBreaking(phase1.DepthFirst))
 	case 2:
@@ -54,13 +64,17 @@ func buildOptions(cfg *Cfg, mon imonitor.Monitor, sizes map[string]pg.Size) []au
 	}
 	switch cfg.P2 {
 	case 0:
-		opts = append(opts, autog.WithLayering(phase2.NetworkSimplex))
+		if !useDefault(1) {
+			opts = append(opts, autog.WithLayering(phase2.NetworkSimplex))
+		}
 	case 1:
 		opts = append(opts, autog.WithLayering(phase2.LongestPath))
 	}
 	switch cfg.P4 {
 	case 0:
-		opts = append(opts, autog.WithPositioning(phase4.SinkColoring))
+		if !useDefault(2) {
+			opts = append(opts, autog.WithPositioning(phase4.SinkColoring))
+		}
 	case 1:
 		opts = append(opts, autog.WithPositioning(phase4.VerticalAlign))
 	case 2:
@@ -72,7 +86,9 @@ func buildOptions(cfg *Cfg, mon imonitor.Monitor, sizes map[string]pg.Size) []au
 	}
 	switch cfg.P5 {
 	case 0:
-		opts = append(opts, autog.WithEdgeRouting(phase5.Polyline))
+		if !useDefault(3) {
+			opts = append(opts, autog.WithEdgeRouting(phase5.Polyline))
+		}
 	case 1:
 		opts = append(opts, autog.WithEdgeRouting(phase5.Straight))
 	case 2:
